@@ -224,7 +224,20 @@ func decodeScalar(data []byte, oid int) interface{} {
 		tz := i32(data, 8) // timezone offset in seconds
 		return fmt.Sprintf("%02d:%02d:%02d%+03d", us/3600e6, (us/60e6)%60, (us/1e6)%60, -tz/3600)
 	case OidTimestamp, OidTimestampTZ:
-		return pgEpoch.Add(time.Duration(i64(data, 0)) * time.Microsecond).Format("2006-01-02 15:04:05")
+		us := i64(data, 0)
+		if us == math.MaxInt64 {
+			return "infinity"
+		}
+		if us == math.MinInt64 {
+			return "-infinity"
+		}
+		// whole seconds (floor) added to the epoch: time.Duration(us)*time.Microsecond
+		// overflows int64 nanoseconds beyond +/-292 years
+		sec := us / 1000000
+		if us%1000000 < 0 {
+			sec--
+		}
+		return time.Unix(pgEpoch.Unix()+sec, 0).UTC().Format("2006-01-02 15:04:05")
 	case OidInterval:
 		return decodeInterval(data)
 
